@@ -518,7 +518,7 @@ class SKCSetFilterABC(SKCByCriteriaFilterABC):
                     "All filter values must be iterable with length > 1"
                 )
             criteria.append(filter_name)
-            criteria_filters.append(np.asarray(filter_value))
+            criteria_filters.append(np.asarray(list(filter_value)))
         return criteria, criteria_filters
 
     def _make_mask(self, matrix, criteria, criteria_to_use, criteria_filters):
